@@ -241,6 +241,50 @@ def rule_waitloop(ctx, rep):
         break
 
 
+def rule_compat(ctx, rep):
+    """The ENOSYS fallback compat_futex_noasync (mutex + condition variable): FUTEX_WAIT waits while *uaddr == val, re-testing the
+    word after every pthread_cond_wait, all under the global mutex; FUTEX_WAKE broadcasts under the same mutex (a wake-up issued
+    between a waiter's test and its cond_wait would otherwise be lost); a failed lock returns -1 without touching the condition."""
+    m = ctx.mod("memb", "perfn")
+    g = m.fn("compat_futex_noasync")
+    if g is None:
+        raise Broken("compat_futex_noasync vanished")
+    rep.touch(g)
+    ls = lockset.compute(g)
+    cw = pat.calls(g, "pthread_cond_wait")
+    cb = pat.calls(g, "pthread_cond_broadcast") + pat.calls(g, "pthread_cond_signal")
+    lds = [i for i in g.all_insts() if i.op == "load" and i.d["ap"] and i.d["ap"]["base"] == ["a", 0]]
+    if not cw or not cb or not lds:
+        rep.bad("C02.enosys", "compat.noasync.anatomy", "compat_futex_noasync lacks cond_wait / broadcast / the test of *uaddr", [g.name])
+        return
+    LK = "@__urcu_compat_futex_lock"
+    for i in cw + cb + lds:
+        rep.check(LK in ls.get(i.id, ()), "C02.enosys", "compat.noasync.locked@%d" % i.line, "%s under the fallback's mutex" % (i.callee or "test of *uaddr"),
+                  "%s outside __urcu_compat_futex_lock: a wake-up issued between a waiter's test of *uaddr and its pthread_cond_wait is lost (the waiter sleeps for good)" % (i.callee or "*uaddr tested"), [i.where()])
+    for w in cw:
+        rep.check(ir.expr(g, w.args[1]) == ("addr", LK), "C02.enosys", "compat.noasync.cond_wait-mutex", "cond_wait releases the fallback's mutex", "cond_wait is given another mutex", [w.where()])
+        hit, _ = g.reach([w], cw + list(g.rets()), avoid=lambda i: i in lds)
+        rep.check(hit is None, "C02.enosys", "compat.noasync.retest", "the word is re-tested after every cond_wait (spurious wake-ups, broadcasts for other words)", "returns / waits again after cond_wait without re-reading *uaddr", [w.where()])
+        lv = pat.dom_leaf_atoms(g, w)
+        okv = any(a[0] == "eq" and a[1][0] == "load" and a[2] == ("arg", 2) for a in lv) or any(a[0] == "eq" and a[2][0] == "load" and a[1] == ("arg", 2) for a in lv)
+        rep.check(okv, "C02.enosys", "compat.noasync.waits-while-equal", "waits while *uaddr == val", "wait condition is not `*uaddr == val`: %s" % [ir.atom_str(a) for a in lv][:3], [w.where()])
+        sel = [(t.blk.id, s_) for t, s_, a in pat.branch_edges_on(g, lambda a: a[0] == "eq" and a[1] == ("arg", 1) and a[2] == ("c", mm.FUTEX_WAIT))]
+        rep.must_take_edge("C02.enosys", "compat.noasync.wait-op", g, [g.entry()], [w], sel, include_start=True, what="cond_wait serves op == FUTEX_WAIT only")
+    for b in cb:
+        lv = pat.dom_leaf_atoms(g, b)
+        sel = [(t.blk.id, s_) for t, s_, a in pat.branch_edges_on(g, lambda a: a[0] == "eq" and a[1] == ("arg", 1) and a[2] == ("c", mm.FUTEX_WAKE))]
+        rep.must_take_edge("C02.enosys", "compat.noasync.wake-op", g, [g.entry()], [b], sel, include_start=True, what="broadcast serves op == FUTEX_WAKE only")
+    held = [(r, ls[r.id]) for r in g.rets() if r.id in ls and ls[r.id]]
+    rep.check(not held, "C02.enosys", "compat.noasync.released", "the mutex is released on every return", "returns holding %s" % (sorted(held[0][1]) if held else ""), [h[0].where() for h in held[:1]])
+    # lock failure: reported, nothing waited on
+    lk = pat.mutex_calls(g, "pthread_mutex_lock", "__urcu_compat_futex_lock")
+    pat.require(lk, "compat_futex_noasync: mutex lock")
+    fail = [(t.blk.id, s_) for t, s_, a in pat.branch_edges_on(g, lambda a: a[0] == "ne" and a[2] == ("c", 0) and a[1][0] == "call" and a[1][1] == "pthread_mutex_lock")]
+    for b_, s_ in fail:
+        hit, _ = g.reach([g.blocks[s_].insts[0]], cw + cb, include_start=True)
+        rep.check(hit is None, "C02.enosys", "compat.noasync.lock-failure", "a failed lock returns without waiting / broadcasting", "cond_wait / broadcast reachable after a failed lock", [g.blocks[b_].insts[-1].where()])
+
+
 def rule_node(ctx, rep):
     for fl in ("memb", "mb", "qsbr"):
         F = FL[fl]
@@ -567,5 +611,6 @@ RULES = [
     ("C02.self", rule_self),
     ("C02.kind", rule_kind),
     ("C02.lockorder", rule_lockorder),
+    ("C02.enosys", rule_compat),
 ]
 FLOORS = {}
